@@ -3,24 +3,24 @@
 //@ include v9_types.rs
 verus! {
 pub type Records = Vec<BTreeMap<usize, V9FieldPair>>;
-pub uninterp spec fn v9_fp(b: Seq<u8>, t: Template) -> Option<(Records, Seq<u8>)>;
-pub open spec fn nom_view<T>(r: IResult<&[u8], T>) -> Option<(T, Seq<u8>)> {
-    match r { Ok((rest, v)) => Some((v, rest@)), Err(_) => None }
+#[verifier::external_body] pub struct FieldDataType { _p: () }
 }
+//@ include v9_records_spec.rs
+verus! {
 pub struct FieldParser;
 impl FieldParser {
-    #[verifier::external_body]
-    fn parse<'a>(input: &'a [u8], template: Template) -> (r: IResult<&'a [u8], Records>)
-        ensures nom_view(r) == v9_fp(input@, template),
-    { unimplemented!() }
+//@ stub stubs/v9_fieldparser_parse.rs
 }
 impl Data {
 //@ fn expanded variable_versions::v9 /impl<'nom> Data/ parse_be
 //@   generics: <'nom>
 //@   rules: R7
 //@   contract: stubs/v9_data_parse.rs
-//@   closure 0: i: &'nom [u8] | -> (o: IResult<&'nom [u8], Records>) ensures parser.templates@.contains_key(flowset_id) ==> nom_view(o) == v9_fp(i@, parser.templates@[flowset_id])
-//@   ensures: r is Ok && old(parser).templates@.contains_key(flowset_id) ==> (v9_fp(orig_i@, old(parser).templates@[flowset_id]) matches Some((recs, rest)) && recs == r->Ok_0.1.fields && r->Ok_0.1.padding@ == rest)
+//@   closure 0: i: &'nom [u8] | -> (o: IResult<&'nom [u8], Records>) ensures parser.templates@.contains_key(flowset_id) ==> v9_records_post(i, parser.templates@[flowset_id], o)
+//@   ensures: r is Ok && old(parser).templates@.contains_key(flowset_id) ==> ({
+//@           let t = old(parser).templates@[flowset_id];
+//@           let (rows, rest) = recs_spec(t.fields@, orig_i@, rec_count(t.fields@, orig_i@));
+//@           recs_rel(r->Ok_0.1.fields@, t.fields@, rows) && r->Ok_0.1.padding@ =~= rest })
 //@ end
 //@ fn expanded variable_versions::v9 /impl<'nom> Data/ parse
 //@   generics: <'nom>
